@@ -9,6 +9,7 @@ CONSTANTS
   FailKinds <- OneFail
   AnyOrder = FALSE
   Canon = TRUE
+  Elapse <- ElapseAll
 VIEW View
 INVARIANTS TypeOK Bound RefPart PeerPart WithinCutoffContributesNothing SoleContribution MidpointWhenBoth OneAdjust Refused StatedImpliesPanics RefusedExact
 PROPERTIES OneAdjustPerRound
